@@ -22,7 +22,7 @@ DEADLINE = 300
 
 def cases(tier, seed):
     rng = random.Random(f"C07/{seed}")
-    count = 20000 if tier == "quick" else 80000
+    count = 20000 if tier == "quick" else 200000
     cl = [("rand", 4), ("gadget", 4), ("inputs", 3), ("rand-wide", 1), ("dense-neg", 1)]
     nets = gen.corpus() + [gen.draw(rng, cl, 6 if rng.random() < 0.7 else 7) for _ in range(count)]
     out = []
